@@ -17,5 +17,15 @@ def variable_get_formula {F : Type} (l : List (Int × F)) (en : Option Int) (o :
   | some f => some f.2
   | none => none
 
-def translated : List (String × Bool) := [("checkForCycle", true), ("variable_get_formula", true)]
+/-- `Holder.get_array` (openfisca_core/holders/holder.py): the lookup through the two stores, statement by statement; `m` / `dk` = what the memory / disk store holds for the period, `hasDisk` = truthiness of `_disk_storage` -/
+def holder_get_array {V : Type} (m dk : Option V) (hasDisk : Bool) : Option V :=
+  if m.isSome then m else
+  if hasDisk then dk else
+  none
+
+/-- the tail of `Holder._set` (openfisca_core/holders/holder.py): `should_store_on_disk` and the branch that writes; `true` = the value goes to the disk store; `pressure` = `psutil…percent >= max_memory_occupation_pc` -/
+def holder_set_to_disk {V : Type} (storable : Bool) (m : Option V) (pressure : Bool) : Bool :=
+  (storable && m.isNone && pressure)
+
+def translated : List (String × Bool) := [("checkForCycle", true), ("variable_get_formula", true), ("holder_get_array", true), ("holder_set_to_disk", true)]
 end OFCore.Generated.Engine
